@@ -33,6 +33,8 @@ func init() {
 		vpFromOnly = 0
 		vpConcreteBase = false
 		vpCellAssume = nil
+		vpApplyConfPeers = false
+		vpApplyConfRemove = 0
 	}
 }
 
